@@ -5,12 +5,12 @@
 //@ assume: mmr_size >= 1 (the archive header's MMR sizes; mmr_size = 0 makes `mmr_size - 1` wrap)
 //@ assume: HashWriter::finalize / into_hash stubbed to a constant digest: hash values reach control flow only in the final root comparison, whose two outcomes both return; Blake2b::update stubbed to a no-op
 //@ assume: prunable path (bitmap = Some) not covered: croaring::Bitmap is C code behind FFI
-//@ repeat S in 1..=6
+//@ repeat S in 1..=3
 //@ repeat H in 0..=2
-//@ harness seg_validate_nopanic_{S}_h{H} kind=bounded tier=quick fns=Segment::root,Segment::validate,Segment::first_unpruned_parent,Segment::get_hash,SegmentProof::validate,SegmentProof::reconstruct_root,SegmentIdentifier::segment_pos_range,SegmentIdentifier::segment_unpruned_size,SegmentIdentifier::full_segment,SegmentIdentifier::leaf_offset,SegmentIdentifier::segment_capacity bound=mmr_size_1..=6_quick_/_1..=16_thorough_(one_harness_per_size_and_height);_<=2_hashes,_<=2_leaves,_<=2_proof_hashes_with_arbitrary_positions;_identifiers_height_0..=2,_idx_0..=(size>>height)+2,_plus_(63,2),(64,1),(255,u64::MAX);_bitmap=None
+//@ harness seg_validate_nopanic_{S}_h{H} kind=bounded tier=quick fns=Segment::root,Segment::validate,Segment::first_unpruned_parent,Segment::get_hash,SegmentProof::validate,SegmentProof::reconstruct_root,SegmentIdentifier::segment_pos_range,SegmentIdentifier::segment_unpruned_size,SegmentIdentifier::full_segment,SegmentIdentifier::leaf_offset,SegmentIdentifier::segment_capacity bound=mmr_size_1..=3_quick_/_1..=16_thorough_(one_harness_per_size_and_height);_<=2_hashes,_<=2_leaves,_<=2_proof_hashes_with_arbitrary_positions;_identifiers_height_0..=2,_idx_0..=(size>>height)+2,_plus_(63,2),(64,1),(255,u64::MAX);_bitmap=None
 //@ end
 //@ end
-//@ repeat S in 7..=16
+//@ repeat S in 4..=16
 //@ repeat H in 0..=2
 //@ harness seg_validate_nopanic_{S}_h{H} kind=bounded tier=thorough fns=Segment::root,Segment::validate bound=mmr_size_{S}
 //@ end
@@ -111,14 +111,14 @@ seg_validate!(seg_validate_nopanic_{S}_h{H}, {S}, {H});
 //@ end
 //@ end
 
-/// Segment::<KLeaf>::read on every byte string of length 0..=96: no panic, bounded allocation,
+/// Segment::<KLeaf>::read on every byte string of length 0..=82 (identifier + one hash entry + one leaf entry + counts): no panic, bounded allocation,
 /// every count loop ends at EOF.
 #[kani::proof]
-#[kani::unwind(12)]
+#[kani::unwind(11)]
 #[kani::stub(alloc::fmt::format, stub_format)]
 #[kani::stub(std::vec::Vec::with_capacity, checked_with_capacity)]
 fn seg_read_nopanic_alloc() {
-	let mut r = KReader::<96>::any();
+	let mut r = KReader::<82>::any();
 	let res = Segment::<KLeaf>::read(&mut r);
 	if let Ok(s) = res {
 		assert!(s.hash_pos.len() == s.hashes.len() && s.leaf_pos.len() == s.leaf_data.len());
